@@ -213,7 +213,7 @@ def _host_closed_before(run, c):
 
 def run_case(prog):
     r = Result()
-    run = sched.run_program(prog, "do")
+    run = sched.run_program(prog, prog.get("mode") or "do")
     judge(prog, run, r)
     calls = [c for c in run.calls if not c.get("exc")]
     cyc_ops = {}
@@ -246,6 +246,7 @@ def run_case(prog):
     if any(c.get("exc") for c in run.calls):
         r.labels.append("call-raised")
     r.labels.append("calls=%d" % min(len(calls), 5))
+    r.labels.append("mode:" + (prog.get("mode") or "do"))
     return r
 
 
@@ -257,4 +258,8 @@ def _prog(draw_always):
 def searches(tier):
     q = tier == "quick"
     return [("doist-host", schedgen.program(maxdepth=0, members=True, limit="always"), 1200 if q else 15000),
-            ("dodoer-always-host", _prog(True), 1200 if q else 15000)]
+            ("dodoer-always-host", _prog(True), 1200 if q else 15000),
+            ("group-calls", schedgen.program(maxdepth=1, members=True, limit="always", always_ok=True, dd_tocks=(0.0,),
+                                             dd_odds=2, force_always=True, group_ops=True, min_leaves=4, max_leaves=8,
+                                             max_steps=4), 800 if q else 10000),
+            ("same-cycle-calls", schedgen.same_cycle_program(), 1000 if q else 15000)]
